@@ -23,10 +23,19 @@ import (
 
 type OutsideValidityIntervalUtxoError struct {
 	ValidityIntervalStart uint64
+	InvalidHereafter      uint64
 	Slot                  uint64
 }
 
 func (e OutsideValidityIntervalUtxoError) Error() string {
+	if e.InvalidHereafter != 0 {
+		return fmt.Sprintf(
+			"outside validity interval: start %d, invalid hereafter %d, slot %d",
+			e.ValidityIntervalStart,
+			e.InvalidHereafter,
+			e.Slot,
+		)
+	}
 	return fmt.Sprintf(
 		"outside validity interval: start %d, slot %d",
 		e.ValidityIntervalStart,
